@@ -149,6 +149,7 @@ def run(ctx):
     ctx.trusted += ["spsolve; the logarithmic profile and its (dr/r_i)^2/6 closeness to the discrete profile are validated numerically, not proved",
                     "long-time convergence of the transient is validated on 8 large steps, not proved (non-expansiveness is proved)"]
     ctx.prove("C13")
+    ctx.prove("C13_log")
     if ctx.tier == "thorough":
         ctx.coqchk("C13")
     cfgs = gen(ctx)
